@@ -259,6 +259,27 @@ def check_props(prop):
     return tot
 
 
+def run_coqchk(prop):
+    """coqchk -o -silent on every props/<prop>*.vo -> dict(ok, summary, axioms)"""
+    res = {'ok': True, 'summary': '', 'axioms': [], 'files': []}
+    for path in sorted(glob.glob(os.path.join(COQ, 'props', prop + '.v')) + glob.glob(os.path.join(COQ, 'props', prop + '_*.v'))):
+        mod = os.path.basename(path)[:-2]
+        rc, out = sh(['timeout', '1800', 'coqchk', '-o', '-silent'] + COQ_INCLUDES + ['Solstat.' + mod], cwd=COQ, timeout=1900)
+        res['files'].append(mod)
+        ax = re.search(r'\* Axioms:(.*?)\n\s*\n', out, flags=re.S)
+        axt = ' '.join(ax.group(1).split()) if ax else '?'
+        tit = re.search(r'type-in-type:(.*?)\n\s*\n', out, flags=re.S)
+        unsafe = re.search(r'unsafe \(co\)fixpoints:(.*?)\n\s*\n', out, flags=re.S)
+        pos = re.search(r'positivity is assumed:(.*?)\n\s*\n', out, flags=re.S)
+        fine = rc == 0 and axt == '<none>' and all(m and ' '.join(m.group(1).split()) == '<none>' for m in (tit, unsafe, pos))
+        res['ok'] = res['ok'] and fine
+        res['axioms'].append(axt)
+        res['summary'] += '%s: rc=%d axioms=%s; ' % (mod, rc, axt)
+        if not fine:
+            res['summary'] += out[-400:]
+    return res
+
+
 # ----------------------------------------------------------------------------- coq values
 def coqval(s):
     """parse a printed Coq value made of N numerals, bools, lists, tuples, strings"""
